@@ -487,6 +487,9 @@ pub async fn catch_up_sub(
         }
     });
 
+    #[cfg(feature = "verif")]
+    klukai_types::verif::point("catchup.start", &matcher.id().to_string());
+
     let mut last_change_id = {
         let res = match params.from {
             Some(from) => catch_up_sub_from(&matcher, from, &evt_tx).await,
@@ -520,6 +523,9 @@ pub async fn catch_up_sub(
             }
         }
     };
+
+    #[cfg(feature = "verif")]
+    klukai_types::verif::point("catchup.snapshot_done", &matcher.id().to_string());
 
     let mut min_change_id = last_change_id + 1;
     info!(sub_id = %matcher.id(), "minimum expected change id: {min_change_id:?}");
@@ -596,6 +602,9 @@ pub async fn catch_up_sub(
 
     info!(sub_id = %matcher.id(), "subscription is caught up, no gaps in change id. last change id: {last_change_id:?}, last_sub_change_id: {last_sub_change_id:?}");
 
+    #[cfg(feature = "verif")]
+    klukai_types::verif::point("catchup.checked", &matcher.id().to_string());
+
     if let Some((event_buf, change_id)) = pending_event {
         info!(sub_id = %matcher.id(), "had a pending event we popped from the queue, id: {change_id:?} (last change id: {last_change_id:?})");
         if change_id > last_change_id {
@@ -646,6 +655,9 @@ pub async fn catch_up_sub(
             return;
         }
     };
+
+    #[cfg(feature = "verif")]
+    klukai_types::verif::point("catchup.before_live", &matcher.id().to_string());
 
     forward_sub_to_sender(matcher, sub_rx, evt_tx, params.skip_rows).await
 }
